@@ -82,7 +82,23 @@ def install(R):
     R.spec('expired', [('r', 'DNSRecord'), ('now', 'real')], 'bool', 'r.created + 1000 * r.ttl <= now')
     R.spec('stale', [('r', 'DNSRecord'), ('now', 'real')], 'bool', 'r.created + 500 * r.ttl <= now')
     R.spec('recent', [('r', 'DNSRecord'), ('now', 'real')], 'bool', 'r.created + 250 * r.ttl > now')
-    # trusted-by-C20 contracts of the small record methods (proved in C05's module from the bodies)
+    # contracts of the identity methods in the abstract model: these are exactly the C20 theorems
+    for cls in ('DNSQuestion', 'DNSAddress', 'DNSHinfo', 'DNSPointer', 'DNSText', 'DNSService', 'DNSNsec'):
+        R.contract('zeroconf._dns', cls + '.__eq__', 'C20-bridge', params={'other': 'object'}, returns='bool',
+                   ensures=['result == (other is not None and cls_is(other, %s) and ident(self) == ident(other))' % cls],
+                   trusted=True, note='C20 theorem (proved in the raw record model), restated over ident')
+        R.contract('zeroconf._dns', cls + '.__hash__', 'C20-bridge', returns='int',
+                   ensures=['result == hash_ident(ident(self))'], trusted=True,
+                   note='C20 theorem: the hash is a function of the identity tuple')
+    R.contract('zeroconf._dns', 'DNSEntry.__eq__', 'C20-bridge', params={'other': 'object'}, returns='bool',
+               ensures=['implies(result, other is not None and cls_is(other, DNSEntry) and self.key == as_(other, DNSEntry).key '
+                        'and self.type == as_(other, DNSEntry).type and self.class_ == as_(other, DNSEntry).class_)'],
+               trusted=True, note='C20 theorem')
+    R.contract('zeroconf._dns', 'DNSEntry._dns_entry_matches', 'C20-bridge', params={'other': 'DNSEntry'}, returns='bool',
+               ensures=['result == (self.key == other.key and self.type == other.type and self.class_ == other.class_)'],
+               trusted=True, note='C20 theorem')
+    hi = z3.Function('hash_ident', Ident, z3.IntSort())
+    R.spec('hash_ident', [('i', 'ident')], 'int', lambda ex, st, i: Sc(hi(i.term), INT))
 
 
 def axioms(ctx):
